@@ -81,4 +81,4 @@ Fixpoint all_loop (fuel : nat) (sets : list (list nat)) (acc : list nat) : res (
 
 Definition all_intersection (sets : list (list nat)) : res (list nat) :=
   let s := sort_by_size sets in
-  all_loop (S (S (length (hd [] s)))) s [].
+  all_loop (S (S (total_len s))) s [].
